@@ -1,4 +1,6 @@
 import Pywbem.Model.Observer
+import Pywbem.Model.Statistics
+import Pywbem.Model.LogConfig
 open Lean Pywbem.Proto Pywbem.Model.Utf8 Pywbem.Model.ToYaml Pywbem.Model.Observer
 
 /-! C19 driver.  One JSON object per line:
@@ -154,7 +156,13 @@ def parseCall (j : Json) : Call × Core :=
   let prepJ := getField j "prep"
   let prep : Except Raised Req :=
     match getField prepJ "err" with
-    | .null => .ok ⟨chars prepJ "data", (getArr prepJ "headers").map parseHdr⟩
+    | .null =>
+      -- the harness hands over the CIM* headers it saw; the model rebuilds the list from the values
+      let hs := (getArr prepJ "headers").map parseHdr
+      let isExport := match hs with | h :: _ => h.name == hCIMExport | [] => false
+      let nth := fun (i : Nat) => (hs[i]?).getD ⟨[], [], []⟩
+      .ok { data := chars prepJ "data", isExport := isExport, cimMethod := (nth 1).value, cimMethodRepr := (nth 1).valueRepr,
+            cimObject := (nth 2).value, cimObjectRepr := (nth 2).valueRepr }
     | e => .error (parseRaised e)
   let sendJ := getField j "send"
   let send : Transport :=
@@ -222,6 +230,147 @@ def handleRun (j : Json) : Json :=
     (r.conn, outs ++ [resultJson r])) (c1, [])
   Json.mkObj [("connEvents", Json.arr (connEv.map eventJson).toArray), ("results", Json.arr results.toArray)]
 
+/-! statistics stream: {"op":"stats","ops":[{"o":"start","n":cps,"t":int}|{"o":"stop","i":nat,"t":int,"rq":int|null,
+   "rp":int|null,"sv":int|null,"e":bool}|{"o":"reset"}|{"o":"enable"}|{"o":"disable"}]} -/
+namespace StatsDrv
+open Pywbem.Model.Statistics
+
+def optInt (j : Json) (k : String) : Option Int :=
+  match getField j k with
+  | .null => none
+  | x => jsonToInt? x
+
+def parseOp (j : Json) : Option Op :=
+  match getStr j "o" with
+  | some "start" => some (.start ((getChars j "n").getD []) ((getInt j "t").getD 0))
+  | some "stop" => some (.stop ((getNat j "i").getD 0) ((getInt j "t").getD 0) (optInt j "rq") (optInt j "rp")
+                          (optInt j "sv") ((getBool j "e").getD false))
+  | some "reset" => some .reset
+  | some "enable" => some .enable
+  | some "disable" => some .disable
+  | _ => none
+
+def oi : Option Int → Json
+  | some i => intToJson i
+  | none => Json.null
+
+def outJson : Out → Json
+  | .handle .dummy => Json.mkObj [("h", "dummy")]
+  | .handle (.named n g) => Json.mkObj [("h", cpsToJson n), ("g", (g : Json))]
+  | .stopped .none => Json.mkObj [("stop", Json.null)]
+  | .stopped (.dt d) => Json.mkObj [("stop", intToJson d)]
+  | .stopped .runtimeError => Json.mkObj [("exc", "RuntimeError")]
+  | .resetDone ok => Json.mkObj [("reset", ok)]
+  | .unit => Json.mkObj [("ok", Json.null)]
+
+def statJson (p : List Char × Pywbem.Model.Statistics.OpStat) : Json :=
+  let o := p.2
+  Json.mkObj [("n", cpsToJson p.1), ("count", (o.count : Json)), ("exc", (o.excCount : Json)),
+    ("tsum", intToJson o.timeSum), ("tmin", oi o.timeMin), ("tmax", intToJson o.timeMax),
+    ("susp", o.srvSuspended), ("ssum", intToJson o.srvSum), ("smin", oi o.srvMin), ("smax", intToJson o.srvMax),
+    ("qsum", intToJson o.reqSum), ("qmin", oi o.reqMin), ("qmax", intToJson o.reqMax),
+    ("psum", intToJson o.replySum), ("pmin", oi o.replyMin), ("pmax", intToJson o.replyMax),
+    ("start", oi o.startTime), ("first", oi o.statStart)]
+
+def handleStats (j : Json) : Json :=
+  match (getArr j "ops").mapM parseOp with
+  | none => Json.mkObj [("bad", "stats op")]
+  | some ops =>
+    let (r, outs) := run {} ops
+    Json.mkObj [("outs", Json.arr (outs.map outJson).toArray), ("enabled", r.stats.enabled),
+                ("stats", Json.arr (r.stats.ops.map statJson).toArray)]
+end StatsDrv
+
+/-! configure_logger stream: {"op":"logcfg","parentDebug":b,"userHandlers":{"api":n,"http":n},"conn":{..as in run..},
+   "tcr":b,"calls":[{"name":"api|http|all|<other>","dest":null|"stderr"|"file"|"off"|<other>,"detail":null|str|int|{"other":..},
+   "filename":b,"conn":null|true|false|"conn","propagate":b}]} -/
+namespace LogCfgDrv
+open Pywbem.Model.LogConfig
+
+def nameArg (j : Json) : NameArg :=
+  match j with
+  | .str "api" => .api
+  | .str "http" => .http
+  | .str "all" => .all
+  | _ => .other
+
+def destArg (j : Json) : DestArg :=
+  match j with
+  | .null => .none
+  | .str "stderr" => .stderr
+  | .str "file" => .file
+  | .str "off" => .off
+  | _ => .other
+
+def detailArg (j : Json) : DetailArg :=
+  match j with
+  | .null => .none
+  | .str s => .str s.toList
+  | .arr a => .str (a.toList.filterMap (fun x => (jsonToNat? x).map Char.ofNat))
+  | .num _ => match jsonToInt? j with | some i => .int i | none => .other
+  | _ => .other
+
+def connArg (j : Json) : ConnArg :=
+  match j with
+  | .null => .none
+  | .bool b => .flag b
+  | _ => .conn
+
+def detailJson : Option Detail → Json
+  | none => Json.null
+  | some .all => "all"
+  | some .paths => "paths"
+  | some .summary => "summary"
+  | some (.maxLen n) => (n : Json)
+
+def levelJson : Level → Json
+  | .notset => "notset"
+  | .debug => "debug"
+  | .error => "error"
+
+def hk : HandlerKind → Json
+  | .stderr => "stderr"
+  | .file => "file"
+  | .user => "user"
+
+def loggerJson (l : LoggerSt) : Json :=
+  Json.mkObj [("handlers", Json.arr (l.handlers.map hk).toArray), ("level", levelJson l.level), ("propagate", l.propagate)]
+
+def recJson : Recorder → Json
+  | .log l => Json.mkObj [("kind", "log"), ("api", detailJson l.apiLevel), ("http", detailJson l.httpLevel),
+      ("apiMax", optJson (fun (n : Nat) => (n : Json)) l.apiMax), ("httpMax", optJson (fun (n : Nat) => (n : Json)) l.httpMax),
+      ("apiOn", l.apiOn), ("httpOn", l.httpOn), ("enabled", l.enabled)]
+  | .tcr t => Json.mkObj [("kind", "tcr"), ("enabled", t.enabled)]
+
+def stateJson (g : Global) (c : Conn) : Json :=
+  Json.mkObj [("apiLogger", loggerJson g.api), ("httpLogger", loggerJson g.http), ("activate", g.activate),
+    ("apiDetail", detailJson g.apiDetail), ("httpDetail", detailJson g.httpDetail),
+    ("recorders", Json.arr (c.recorders.map recJson).toArray)]
+
+def handleLogCfg (j : Json) : Json :=
+  let cj := getField j "conn"
+  let info : ConnInfo := ⟨parseCreds (getField cj "creds"), chars cj "strPre", chars cj "strPost",
+                          chars cj "reprPre", chars cj "reprPost"⟩
+  let uh := getField j "userHandlers"
+  let g0 : Global := { parentDebug := (getBool j "parentDebug").getD false,
+                       api := { handlers := List.replicate ((getNat uh "api").getD 0) .user },
+                       http := { handlers := List.replicate ((getNat uh "http").getD 0) .user } }
+  let c0 := Conn.new info ((getBool cj "stats").getD false)
+  let c1 := if (getBool j "tcr").getD false then (c0.addRecorder (.tcr {})).1 else c0
+  let (g, c, outs) := (getArr j "calls").foldl (fun (acc : Global × Conn × List Json) cj =>
+    let (g, c, outs) := acc
+    let r := configure g c (nameArg (getField cj "name")) (destArg (getField cj "dest")) (detailArg (getField cj "detail"))
+               ((getBool cj "filename").getD false) (connArg (getField cj "conn")) ((getBool cj "propagate").getD false)
+    (r.g, r.c, outs ++ [Json.mkObj [("exc", optJson (fun (e : Exc) => (e.name : Json)) r.exc),
+                                     ("events", Json.arr (r.events.map eventJson).toArray),
+                                     ("state", stateJson r.g r.c)]])) (g0, c1, [])
+  let (cn, evn) := newConn g info false
+  Json.mkObj [("calls", Json.arr outs.toArray),
+              ("newConn", Json.mkObj [("recorders", Json.arr (cn.recorders.map recJson).toArray),
+                                       ("events", Json.arr (evn.map eventJson).toArray)]),
+              ("final", stateJson g c)]
+end LogCfgDrv
+
 def handle (j : Json) : Json :=
   match getStr j "op" with
   | some "utf8" =>
@@ -233,6 +382,8 @@ def handle (j : Json) : Json :=
     | .ok y => Json.mkObj [("ok", yamlJson y), ("dumpable", y.representable)]
     | .error e => excJson e
   | some "run" => handleRun j
+  | some "stats" => StatsDrv.handleStats j
+  | some "logcfg" => LogCfgDrv.handleLogCfg j
   | _ => Json.mkObj [("bad", "op")]
 
 def main : IO Unit := runDriver handle
